@@ -1,10 +1,10 @@
 (* C15/Props.v — property theorems only.  Property C15: under any history an ArraySequence shows
    exactly the contents a Python list of arrays would; view semantics; growth isolation.
 
-   All theorems quantify over EVERY reachable state  st = exec init ops  (ops arbitrary: any
-   number of objects, operations, re-allocations, dropped objects, pending cached builds, API
-   misuse included) — proved through the structural invariant `wf` (C15_wellformed), by
-   induction over the history.  C st k = list(seq_k) (the visible elements of object k),
+   All theorems quantify over EVERY state that satisfies the structural invariant `wf` (Invariant.v), reachable or
+   not.  Every state st = exec init ops is one (C15_wellformed; ops arbitrary: any number of objects, operations,
+   re-allocations, dropped objects, pending cached builds, API misuse included; induction over the history), and
+   every step keeps the invariant (wf_step), so the theorems hold at every point of every history.  C st k = list(seq_k) (the visible elements of object k),
    F st k = C st k ++ elements of a pending cached build, V st j q = element q of object j,
    cell st j q = the (offset, length) range of that element, is_cell = "same buffer and same range"
    (the sharing relation of the abstract list-of-arrays model: two list entries are the same array). *)
@@ -22,7 +22,7 @@ Print Assumptions C15_wellformed.
 
 (* ---- C15_own_contents: every operation gives the sequence it is applied to (or creates) exactly
    the contents the list model gives, whatever the sharing situation *)
-Theorem C15_own_contents_append : forall st i bpr e cb, reachable st -> is_live st i = true ->
+Theorem C15_own_contents_append : forall st i bpr e cb, wf st -> is_live st i = true ->
   let st' := fst (step st (OAppend i bpr e cb)) in
   F st' i = spec_append (F st i) e /\
   (scache (getseq st i) = None -> cb = false -> C st' i = spec_append (C st i) e) /\
@@ -30,29 +30,29 @@ Theorem C15_own_contents_append : forall st i bpr e cb, reachable st -> is_live 
 Proof. exact own_append_gen. Qed.
 Print Assumptions C15_own_contents_append.
 
-Theorem C15_own_contents_finalize : forall st i, reachable st -> is_live st i = true ->
+Theorem C15_own_contents_finalize : forall st i, wf st -> is_live st i = true ->
   C (fst (step st (OFinalize i))) i = F st i.
 Proof. exact own_finalize. Qed.
 Print Assumptions C15_own_contents_finalize.
 
-Theorem C15_own_contents_extend : forall st i bpr pre els, reachable st -> is_live st i = true ->
+Theorem C15_own_contents_extend : forall st i bpr pre els, wf st -> is_live st i = true ->
   pre = true \/ scache (getseq st i) = None ->
   C (fst (step st (OExtend i bpr pre els))) i = spec_extend (C st i) els.
 Proof. exact own_extend. Qed.
 Print Assumptions C15_own_contents_extend.
 
-Theorem C15_own_contents_extend_seq : forall st i bpr j, reachable st ->
+Theorem C15_own_contents_extend_seq : forall st i bpr j, wf st ->
   is_live st i = true -> is_live st j = true ->
   C (fst (step st (OExtendSeq i bpr j))) i = spec_extend (C st i) (C st j).
 Proof. exact own_extend_seq. Qed.
 Print Assumptions C15_own_contents_extend_seq.
 
-Theorem C15_own_contents_new : forall st bytes bpr pre els, reachable st ->
+Theorem C15_own_contents_new : forall st bytes bpr pre els, wf st ->
   C (fst (step st (ONew bytes bpr pre els))) (length (seqs st)) = spec_extend [] els.
 Proof. exact own_new. Qed.
 Print Assumptions C15_own_contents_new.
 
-Theorem C15_own_contents_getitem_int : forall st i k, reachable st -> is_live st i = true ->
+Theorem C15_own_contents_getitem_int : forall st i k, wf st -> is_live st i = true ->
   let n := Z.of_nat (length (C st i)) in
   snd (step st (OGetInt i k)) =
     (if ((- n <=? k) && (k <? n))%Z then RElem (nth (Z.to_nat (if (k <? 0)%Z then k + n else k)) (C st i) [])
@@ -60,7 +60,7 @@ Theorem C15_own_contents_getitem_int : forall st i k, reachable st -> is_live st
 Proof. exact own_get_int. Qed.
 Print Assumptions C15_own_contents_getitem_int.
 
-Theorem C15_own_contents_getitem : forall st i ix, reachable st -> is_live st i = true ->
+Theorem C15_own_contents_getitem : forall st i ix, wf st -> is_live st i = true ->
   let st' := fst (step st (OGetIdx i ix)) in
   match positions (length (C st i)) ix with
   | Ok ps => snd (step st (OGetIdx i ix)) = ROk /\ C st' (length (seqs st)) = spec_pick (C st i) ps /\ keeps st st'
@@ -69,14 +69,14 @@ Theorem C15_own_contents_getitem : forall st i ix, reachable st -> is_live st i 
 Proof. exact own_get_idx. Qed.
 Print Assumptions C15_own_contents_getitem.
 
-Theorem C15_own_contents_view : forall st i bytes, reachable st -> is_live st i = true ->
+Theorem C15_own_contents_view : forall st i bytes, wf st -> is_live st i = true ->
   let st' := fst (step st (OView i bytes)) in
   C st' (length (seqs st)) = C st i /\ keeps st st' /\
   sbuf (getseq st' (length (seqs st))) = sbuf (getseq st i).
 Proof. exact own_view. Qed.
 Print Assumptions C15_own_contents_view.
 
-Theorem C15_own_contents_op : forall st i f dt, reachable st -> is_live st i = true ->
+Theorem C15_own_contents_op : forall st i f dt, wf st -> is_live st i = true ->
   offs (getseq st i) <> [] ->
   let st' := fst (step st (OOp i f false dt)) in
   snd (step st (OOp i f false dt)) = ROk /\
@@ -85,7 +85,7 @@ Theorem C15_own_contents_op : forall st i f dt, reachable st -> is_live st i = t
 Proof. exact op_copy_spec. Qed.
 Print Assumptions C15_own_contents_op.
 
-Theorem C15_own_contents_concatenate : forall st j0 b0 rest, reachable st ->
+Theorem C15_own_contents_concatenate : forall st j0 b0 rest, wf st ->
   forallb (fun p => is_live st (fst p)) ((j0, b0) :: rest) = true ->
   let st' := fst (step st (OConcat ((j0, b0) :: rest))) in
   C st' (length (seqs st)) = fold_left (fun a p => spec_extend a (C st (fst p))) rest (C st j0) /\
@@ -95,7 +95,7 @@ Print Assumptions C15_own_contents_concatenate.
 
 (* seq[k] = scalar / rows, seq[idx] = scalar: the value of EVERY element of EVERY object afterwards
    (own contents for j = i, write-through for the others) *)
-Theorem C15_own_contents_setitem_int : forall st i k v, reachable st -> is_live st i = true ->
+Theorem C15_own_contents_setitem_int : forall st i k v, wf st -> is_live st i = true ->
   let st' := fst (step st (OSetInt i k v)) in
   match norm_index (Z.of_nat (length (offs (getseq st i)))) k with
   | Ok p =>
@@ -108,7 +108,7 @@ Theorem C15_own_contents_setitem_int : forall st i k v, reachable st -> is_live 
 Proof. exact set_int_cells. Qed.
 Print Assumptions C15_own_contents_setitem_int.
 
-Theorem C15_own_contents_setitem_rows : forall st i k vs, reachable st -> is_live st i = true ->
+Theorem C15_own_contents_setitem_rows : forall st i k vs, wf st -> is_live st i = true ->
   let st' := fst (step st (OSetIntRows i k vs)) in
   match norm_index (Z.of_nat (length (offs (getseq st i)))) k with
   | Ok p =>
@@ -124,7 +124,7 @@ Theorem C15_own_contents_setitem_rows : forall st i k vs, reachable st -> is_liv
 Proof. exact set_int_rows_cells. Qed.
 Print Assumptions C15_own_contents_setitem_rows.
 
-Theorem C15_own_contents_setitem_scalar : forall st i ix v, reachable st -> is_live st i = true ->
+Theorem C15_own_contents_setitem_scalar : forall st i ix v, wf st -> is_live st i = true ->
   let st' := fst (step st (OSetIdx i ix (VScalar v))) in
   match positions (length (offs (getseq st i))) ix with
   | Ok ps =>
@@ -142,7 +142,7 @@ Print Assumptions C15_own_contents_setitem_scalar.
    mid-way after a partial assignment): result and the value of every element of every object
    afterwards are those of the abstract loop abs_seq over a valuation of the cells of i's buffer
    (element after element; a source on the same buffer is read from the CURRENT valuation) *)
-Theorem C15_own_contents_setitem_seq : forall st i ix j ps, reachable st ->
+Theorem C15_own_contents_setitem_seq : forall st i ix j ps, wf st ->
   is_live st i = true -> is_live st j = true ->
   positions (length (offs (getseq st i))) ix = Ok ps ->
   let dst := combine (pick 0 (offs (getseq st i)) ps) (pick 0 (lens (getseq st i)) ps) in
@@ -161,7 +161,7 @@ Print Assumptions C15_own_contents_setitem_seq.
 
 (* seq_i <op>= seq_j for ANY j (independent, the same object, overlapping views of one buffer):
    element after element in the order of i's elements, each step sees what the earlier ones wrote *)
-Theorem C15_own_contents_opseq_inplace : forall st i g j dt, reachable st ->
+Theorem C15_own_contents_opseq_inplace : forall st i g j dt, wf st ->
   is_live st i = true -> is_live st j = true ->
   length (lens (getseq st i)) = length (lens (getseq st j)) ->
   sum (lens (getseq st i)) = sum (lens (getseq st j)) ->
@@ -180,7 +180,7 @@ Print Assumptions C15_own_contents_opseq_inplace.
 
 (* seq_i <op> seq_j out of place: the new object holds the element-wise results (NumPy one-row
    broadcasting, a shape mismatch is a refusal that changes nothing), nothing else changes *)
-Theorem C15_own_contents_opseq : forall st i g j dt, reachable st ->
+Theorem C15_own_contents_opseq : forall st i g j dt, wf st ->
   is_live st i = true -> is_live st j = true ->
   length (lens (getseq st i)) = length (lens (getseq st j)) ->
   sum (lens (getseq st i)) = sum (lens (getseq st j)) ->
@@ -196,7 +196,7 @@ Proof. exact op_seq_copy_full. Qed.
 Print Assumptions C15_own_contents_opseq.
 
 (* in-place operator: value of every element of every object afterwards *)
-Theorem C15_own_contents_inplace : forall st i f dt, reachable st -> is_live st i = true ->
+Theorem C15_own_contents_inplace : forall st i f dt, wf st -> is_live st i = true ->
   offs (getseq st i) <> [] ->
   let st' := fst (step st (OOp i f true dt)) in
   snd (step st (OOp i f true dt)) = ROk /\ seqs st' = seqs st /\
@@ -211,12 +211,12 @@ Print Assumptions C15_own_contents_inplace.
    FUNCTION of that abstract state alone for construction, append (cache_build=False), extend of a
    list / generator / sequence / itself, int / slice / list / mask indexing, view constructor, copy,
    out-of-place operators with a scalar or a sequence operand, dropping an object — every refusal
-   included.  For every reachable state the abstraction commutes with the step; own contents AND
+   included.  For every well-formed state the abstraction commutes with the step; own contents AND
    "nothing else changes" (growth isolation) for these operations are corollaries.  spec_step is
    undefined (None) for cached builds (pending elements are not part of the visible lists),
    concatenate (C15_own_contents_concatenate), and for assignments / in-place operators, whose
    effect depends on which arrays are shared and on re-allocation: see the cell theorems. *)
-Theorem C15_simulation : forall st o a' r, reachable st -> no_pending st o ->
+Theorem C15_simulation : forall st o a' r, wf st -> no_pending st o ->
   spec_step (absC st) o = Some (a', r) ->
   absC (fst (step st o)) = a' /\ snd (step st o) = r.
 Proof. exact simulation. Qed.
@@ -229,7 +229,7 @@ Print Assumptions C15_simulation.
    position by position and copies are linked to nothing (C15_links_view, C15_links_copy); growth
    leaves every link between other objects alone, may CUT links of the grown object and never
    creates one (C15_links_growth): finding S-C15d is exactly "growth cuts the link". *)
-Theorem C15_links_growth : forall st o i, reachable st -> grows o i -> i < length (seqs st) ->
+Theorem C15_links_growth : forall st o i, wf st -> grows o i -> i < length (seqs st) ->
   let st' := fst (step st o) in
   (forall x y, x <> i -> y <> i -> x < length (seqs st) -> y < length (seqs st) ->
      forall q q', R st' x q y q' = R st x q y q') /\
@@ -239,7 +239,7 @@ Theorem C15_links_growth : forall st o i, reachable st -> grows o i -> i < lengt
 Proof. exact grow_links. Qed.
 Print Assumptions C15_links_growth.
 
-Theorem C15_links_view : forall st j ix ps, reachable st -> is_live st j = true ->
+Theorem C15_links_view : forall st j ix ps, wf st -> is_live st j = true ->
   positions (length (offs (getseq st j))) ix = Ok ps ->
   let st' := fst (step st (OGetIdx j ix)) in
   let v := length (seqs st) in
@@ -248,7 +248,7 @@ Theorem C15_links_view : forall st j ix ps, reachable st -> is_live st j = true 
 Proof. exact view_links. Qed.
 Print Assumptions C15_links_view.
 
-Theorem C15_links_copy : forall st i, reachable st -> is_live st i = true ->
+Theorem C15_links_copy : forall st i, wf st -> is_live st i = true ->
   let st' := fst (step st (OCopy i)) in
   let n := length (seqs st) in
   (forall x y, x < n -> y < n -> forall q q', R st' x q y q' = R st x q y q') /\
@@ -264,7 +264,7 @@ Print Assumptions C15_links_write.
 (* shrink_data() called directly (not an operation of `step`): nothing on a view (fix deb32026);
    on the owner of a buffer that live views share, outside a cached build, it cuts the buffer at the
    owner's own extent, which covers every view's rows: harmless *)
-Theorem C15_shrink_harmless : forall st i, reachable st -> i < length (seqs st) ->
+Theorem C15_shrink_harmless : forall st i, wf st -> i < length (seqs st) ->
   scache (getseq st i) = None ->
   let st' := shrink st i in
   wf st' /\ seqs st' = seqs st /\
@@ -277,7 +277,7 @@ Print Assumptions C15_shrink_harmless.
    pend st k = None outside a build, Some (the elements appended and not yet visible) inside one;
    F st k = C st k ++ them (F_split).  No growth of ANOTHER object and no assignment / in-place operator
    at all changes them — the two facts needed to carry pending lists in the abstract state. *)
-Theorem C15_pending_isolated : forall st o i, reachable st -> grows o i ->
+Theorem C15_pending_isolated : forall st o i, wf st -> grows o i ->
   forall j, j <> i -> j < length (seqs st) -> pend (fst (step st o)) j = pend st j.
 Proof. exact grow_pend. Qed.
 Print Assumptions C15_pending_isolated.
@@ -289,7 +289,7 @@ Print Assumptions C15_pending_under_writes.
 
 (* the new object of an out-of-place operator (scalar or sequence operand), of concatenate(axis=1) and
    of the constructor is linked to no existing object (copy: C15_links_copy) *)
-Theorem C15_links_fresh : forall st o, reachable st ->
+Theorem C15_links_fresh : forall st o, wf st ->
   match o with
   | OOp _ _ false _ | OOpSeq _ _ _ false _ | OConcat1 _ | ONew _ _ _ _ => True
   | _ => False
@@ -310,31 +310,31 @@ Print Assumptions C15_links_fresh.
    comes to share an array with another object unless it already did — "growth cuts links": finding
    S-C15d is part of the specification; everything else (names, values, pending elements of every
    other object) is untouched. *)
-Theorem C15_simulation_all : forall st o, reachable st ->
+Theorem C15_simulation_all : forall st o, wf st ->
   spec_rel (absS st) o (absS (fst (step st o))) (snd (step st o)).
 Proof. exact simulation_all. Qed.
 Print Assumptions C15_simulation_all.
 
-(* for EVERY history: the abstraction of the state reached is reached by a run of the list-of-arrays
+(* for EVERY history from EVERY well-formed state (st := init: every history): the abstraction of the state reached is reached by a run of the list-of-arrays
    machine (arun = spec_rel step after step) with the same outputs, and what object k shows — list(seq_k)
    — is what the abstract state holds for it *)
-Theorem C15_histories_list_model : forall ops,
-  arun (absS init) ops (absS (exec init ops)) (results init ops) /\
-  forall k, k < length (seqs (exec init ops)) -> conts (absS (exec init ops)) k = C (exec init ops) k.
-Proof. exact (fun ops => histories_list_model ops init (ex_intro _ [] eq_refl)). Qed.
+Theorem C15_histories_list_model : forall ops st, wf st ->
+  arun (absS st) ops (absS (exec st ops)) (results st ops) /\
+  forall k, k < length (seqs (exec st ops)) -> conts (absS (exec st ops)) k = C (exec st ops) k.
+Proof. exact histories_list_model. Qed.
 Print Assumptions C15_histories_list_model.
 
 (* ---- growing a view, a copy or any derived sequence (append with or without cache_build,
    finalize_append, extend of a list / generator / sequence / itself) never changes any element
    of any other sequence object, nor the object itself *)
-Theorem C15_grow_isolated : forall st o i, reachable st -> grows o i ->
+Theorem C15_grow_isolated : forall st o i, wf st -> grows o i ->
   forall j, j <> i -> j < length (seqs st) ->
     getseq (fst (step st o)) j = getseq st j /\ C (fst (step st o)) j = C st j.
 Proof. exact grow_isolated. Qed.
 Print Assumptions C15_grow_isolated.
 
 (* ... and neither does the constructor *)
-Theorem C15_new_isolated : forall st bytes bpr pre els, reachable st ->
+Theorem C15_new_isolated : forall st bytes bpr pre els, wf st ->
   forall j, j < length (seqs st) ->
     getseq (fst (step st (ONew bytes bpr pre els))) j = getseq st j /\
     C (fst (step st (ONew bytes bpr pre els))) j = C st j.
@@ -347,13 +347,13 @@ Print Assumptions C15_new_isolated.
    share — never alters any sequence object that is not one of its own components, in particular no
    component of the tractogram it was taken from; and each component receives exactly the elements
    of the corresponding component of `other` (which may be the tractogram itself). *)
-Theorem C15_tractogram_extend_isolated : forall tu st, reachable st ->
+Theorem C15_tractogram_extend_isolated : forall tu st, wf st ->
   forall x, x < length (seqs st) -> (forall p, In p tu -> fst (fst p) <> x) ->
     getseq (textend st tu) x = getseq st x /\ C (textend st tu) x = C st x.
 Proof. exact textend_isolated. Qed.
 Print Assumptions C15_tractogram_extend_isolated.
 
-Theorem C15_tractogram_extend_own : forall tu st, reachable st ->
+Theorem C15_tractogram_extend_own : forall tu st, wf st ->
   NoDup (map (fun p => fst (fst p)) tu) ->
   (forall p, In p tu -> is_live st (fst (fst p)) = true /\ is_live st (snd p) = true) ->
   (forall p p', In p tu -> In p' tu -> snd p = fst (fst p') -> p = p') ->
@@ -366,11 +366,11 @@ Print Assumptions C15_tractogram_extend_own.
    view constructor around it, the intermediate dropped (tget_component).  The new component is object
    length (seqs st) + 1: exactly the selected elements, on the component's buffer (views of every
    component), nothing that exists changes. *)
-Theorem C15_tractogram_getitem : forall st c ix ps, reachable st -> is_live st c = true ->
+Theorem C15_tractogram_getitem : forall st c ix ps, wf st -> is_live st c = true ->
   positions (length (C st c)) ix = Ok ps ->
   let st' := tget_component st c ix in
   let w := S (length (seqs st)) in
-  reachable st' /\ C st' w = spec_pick (C st c) ps /\
+  wf st' /\ C st' w = spec_pick (C st c) ps /\
   sbuf (getseq st' w) = sbuf (getseq st c) /\ is_live st' w = true /\
   (forall k, k < length (seqs st) -> getseq st' k = getseq st k /\ C st' k = C st k).
 Proof. exact tget_component_spec. Qed.
@@ -380,10 +380,10 @@ Print Assumptions C15_tractogram_getitem.
    buffer, the same offsets and lengths, _is_view as it is).  The clone shows the same contents on a
    buffer nobody else uses (so by C15_own_contents_setitem_* / _inplace / C15_grow_isolated nothing
    done to it reaches the source), nothing that exists changes. *)
-Theorem C15_tractogram_copy : forall st i, reachable st -> is_live st i = true ->
+Theorem C15_tractogram_copy : forall st i, wf st -> is_live st i = true ->
   let st' := fst (step st (ODeepCopy i)) in
   let n := length (seqs st) in
-  snd (step st (ODeepCopy i)) = ROk /\ reachable st' /\ length (seqs st') = S n /\ is_live st' n = true /\
+  snd (step st (ODeepCopy i)) = ROk /\ wf st' /\ length (seqs st') = S n /\ is_live st' n = true /\
   C st' n = C st i /\ keeps st st' /\ length (heap st) <= sbuf (getseq st' n).
 Proof. exact deep_copy_spec. Qed.
 Print Assumptions C15_tractogram_copy.
@@ -392,10 +392,10 @@ Print Assumptions C15_tractogram_copy.
    component shows the elements of both; NO existing object changes, whatever the operands share
    (t + t, t + t[idx], a sum of slices ...): a derived tractogram never alters what it was derived
    from.  (`+=` is C15_tractogram_extend_*.) *)
-Theorem C15_tractogram_add : forall st c b oc, reachable st -> is_live st c = true -> is_live st oc = true ->
+Theorem C15_tractogram_add : forall st c b oc, wf st -> is_live st c = true -> is_live st oc = true ->
   let st' := tadd_component st c b oc in
   let n := length (seqs st) in
-  reachable st' /\ C st' n = spec_extend (C st c) (C st oc) /\
+  wf st' /\ C st' n = spec_extend (C st c) (C st oc) /\
   (forall k, k < n -> getseq st' k = getseq st k /\ C st' k = C st k).
 Proof. exact tadd_component_spec. Qed.
 Print Assumptions C15_tractogram_add.
@@ -409,7 +409,7 @@ Print Assumptions C15_tractogram_add.
    streamlines not "sliced" — transforms the whole buffer in place when np.dot(out=) accepts it and
    otherwise REPLACES _data by a new array, silently detaching every view: not modelled, see the
    report.) *)
-Theorem C15_tractogram_apply_affine_sliced : forall st c f dt, reachable st -> is_live st c = true ->
+Theorem C15_tractogram_apply_affine_sliced : forall st c f dt, wf st -> is_live st c = true ->
   offs (getseq st c) <> [] ->
   let st' := fst (step st (OOp c f true dt)) in
   snd (step st (OOp c f true dt)) = ROk /\ seqs st' = seqs st /\
@@ -422,9 +422,9 @@ Print Assumptions C15_tractogram_apply_affine_sliced.
 
 (* extend(good ++ [an element with another trailing shape] ++ more) (fix 4004448f: the loop runs in
    try/finally with finalize_append()): an error is reported, the sequence keeps exactly the good
-   elements — and stays usable: the state is a reachable one without a pending build — and, by
+   elements — and stays usable: the state is a well-formed one without a pending build — and, by
    C15_grow_isolated (OExtendBad is a growth operation), no other object changes *)
-Theorem C15_own_contents_extend_refused : forall st i bpr pre good extra, reachable st ->
+Theorem C15_own_contents_extend_refused : forall st i bpr pre good extra, wf st ->
   is_live st i = true -> scache (getseq st i) = None ->
   let st' := fst (step st (OExtendBad i bpr pre good extra)) in
   (exists e, snd (step st (OExtendBad i bpr pre good extra)) = RErr e) /\
@@ -438,7 +438,7 @@ Print Assumptions C15_own_contents_extend_refused.
    (A non-view tractogram: the whole buffer in place, or — np.dot(out=) refusing, e.g. float32 points —
    a NEW array, after which its views are detached: "none" of the shared elements, the same mechanism
    as S-C15d: the object moves to another buffer.  Not modelled; exercised by the harness.) *)
-Theorem C15_tractogram_apply_affine_view : forall st c f dt, reachable st -> is_live st c = true ->
+Theorem C15_tractogram_apply_affine_view : forall st c f dt, wf st -> is_live st c = true ->
   is_view (getseq st c) = true -> offs (getseq st c) <> [] ->
   affine_elementwise st c = true /\
   let st' := fst (step st (OOp c f true dt)) in
@@ -452,13 +452,35 @@ Theorem C15_tractogram_apply_affine_view : forall st c f dt, reachable st -> is_
 Proof. exact tapply_affine_view. Qed.
 Print Assumptions C15_tractogram_apply_affine_view.
 
+(* the OTHER branch of apply_affine (the object is not a view and its elements fill its buffer): the whole buffer
+   goes through nibabel.affines.apply_affine(inplace=True).  float64 buffer (dt = false): transformed where it is —
+   the owner and every view of it see each of their elements transformed exactly once, whatever a view selects
+   and however often; any other dtype (dt = true): np.dot(out=) refuses, the result is a new array, the object
+   moves to a buffer nobody else uses and every other object is exactly what it was.  Both keep the invariant. *)
+Theorem C15_tractogram_apply_affine_whole : forall st c f, wf st -> is_live st c = true ->
+  affine_elementwise st c = false ->
+  (let st' := taffine_whole st c f false in
+   wf st' /\ seqs st' = seqs st /\
+   forall j, j < length (seqs st) ->
+     C st' j = if sbuf (getseq st j) =? sbuf (getseq st c) then map (map (apply_fn f)) (C st j) else C st j) /\
+  (let st' := taffine_whole st c f true in
+   wf st' /\ length (seqs st') = length (seqs st) /\
+   C st' c = map (map (apply_fn f)) (C st c) /\
+   sbuf (getseq st' c) = length (heap st) /\
+   forall j, j <> c -> j < length (seqs st) ->
+     getseq st' j = getseq st j /\ C st' j = C st j /\ sbuf (getseq st' j) <> sbuf (getseq st' c)).
+Proof.
+  intros st c f W L A. split; [exact (tapply_affine_whole_inplace st c f W L A)|exact (tapply_affine_whole_detach st c f W L A)].
+Qed.
+Print Assumptions C15_tractogram_apply_affine_whole.
+
 (* ---- the four further operations: refused append, shrink_data(), seq[idx, cols], concatenate(axis=1) *)
 Theorem C15_append_refused_nothing : forall st i, fst (step st (OAppendBad i)) = st /\
   exists e, snd (step st (OAppendBad i)) = RErr e.
 Proof. exact append_bad_nothing. Qed.
 Print Assumptions C15_append_refused_nothing.
 
-Theorem C15_shrink_op : forall st i, reachable st -> is_live st i = true -> scache (getseq st i) = None ->
+Theorem C15_shrink_op : forall st i, wf st -> is_live st i = true -> scache (getseq st i) = None ->
   let st' := fst (step st (OShrink i)) in
   snd (step st (OShrink i)) = ROk /\ seqs st' = seqs st /\
   (forall x, x < length (seqs st) -> C st' x = C st x) /\
@@ -470,7 +492,7 @@ Theorem C15_getitem_cols : forall st i ix, step st (OGetCols i ix) = step st (OG
 Proof. exact get_cols_is_getitem. Qed.
 Print Assumptions C15_getitem_cols.
 
-Theorem C15_concatenate_axis1 : forall st j0 js, reachable st -> forallb (is_live st) (j0 :: js) = true ->
+Theorem C15_concatenate_axis1 : forall st j0 js, wf st -> forallb (is_live st) (j0 :: js) = true ->
   let rs := map (fun j => concat (C st j)) (j0 :: js) in
   let n := sum (lens (getseq st j0)) in
   n <> 0 ->
@@ -484,7 +506,7 @@ Proof. exact concat1_spec. Qed.
 Print Assumptions C15_concatenate_axis1.
 
 (* ---- an in-place operator on A reaches all or none of the cells A shares with B *)
-Theorem C15_inplace_all_or_none : forall st a f dt b, reachable st -> is_live st a = true ->
+Theorem C15_inplace_all_or_none : forall st a f dt b, wf st -> is_live st a = true ->
   offs (getseq st a) <> [] -> b < length (seqs st) ->
   let st' := fst (step st (OOp a f true dt)) in
   (sbuf (getseq st b) <> sbuf (getseq st a) ->
@@ -501,16 +523,16 @@ Print Assumptions C15_inplace_all_or_none.
    corresponding elements of p, whatever happened since the view was taken") is false of the
    faithful model: growth re-allocates / detaches (finding S-C15d, C15_view_write_through_refuted).
    Proved: (1) a view created by indexing selects, position by position, the parent's cells on the
-   parent's buffer; (2) in every reachable state an assignment through any object changes exactly
+   parent's buffer; (2) in every well-formed state an assignment through any object changes exactly
    the elements of the other objects that are the same cell — i.e. while view and parent still
    share the buffer — and nothing else (C15_own_contents_setitem_int/_rows/_scalar above). *)
-Theorem C15_view_write_through_partial : forall st j ix ps, reachable st -> is_live st j = true ->
+Theorem C15_view_write_through_partial : forall st j ix ps, wf st -> is_live st j = true ->
   positions (length (offs (getseq st j))) ix = Ok ps ->
   let st1 := fst (step st (OGetIdx j ix)) in
   let v := length (seqs st) in
   (sbuf (getseq st1 v) = sbuf (getseq st1 j) /\ length (offs (getseq st1 v)) = length ps /\
    forall m, m < length ps -> cell st1 v m = cell st1 j (nth m ps 0)) /\
-  forall st2 i k x, reachable st2 -> is_live st2 i = true ->
+  forall st2 i k x, wf st2 -> is_live st2 i = true ->
     match norm_index (Z.of_nat (length (offs (getseq st2 i)))) k with
     | Ok p =>
       forall j' q, j' < length (seqs st2) -> q < length (offs (getseq st2 j')) ->
@@ -532,21 +554,21 @@ Theorem C15_view_write_through_refuted :
 Proof. exact view_write_through_refuted. Qed.
 Print Assumptions C15_view_write_through_refuted.
 
-(* ---- copy() succeeds on every reachable sequence (all-empty ones included), gives the same
+(* ---- copy() succeeds on every sequence of every well-formed state (all-empty ones included), gives the same
    contents on a buffer nobody else references, and changes nothing else *)
-Theorem C15_copy_total : forall st i, reachable st -> is_live st i = true ->
+Theorem C15_copy_total : forall st i, wf st -> is_live st i = true ->
   let st' := fst (step st (OCopy i)) in
   snd (step st (OCopy i)) = ROk /\ C st' (length (seqs st)) = C st i /\ keeps st st' /\
   (forall j, j < length (seqs st) -> sbuf (getseq st' j) <> sbuf (getseq st' (length (seqs st)))).
 Proof. exact copy_total. Qed.
 Print Assumptions C15_copy_total.
 
-(* non-vacuity: a reachable state with a list-indexed view, a grown (re-allocated) parent and a
+(* non-vacuity: a reachable (hence well-formed) state with a list-indexed view, a grown (re-allocated) parent and a
    reversed slice view of the new buffer; assignment through the latter reaches the parent *)
 Example C15_nonvacuous :
   let st := exec init [ONew 24 16 true [[1; 2]; []; [3]; [4; 5; 6]]%Z; OGetIdx 0 (IList [2; 0; 2]%Z);
                        OExtend 0 8 true [[7]; [8; 9]]%Z; OGetIdx 0 (ISlice None None (Some (-2)%Z))] in
-  reachable st /\ is_live st 2 = true /\
+  wf st /\ is_live st 2 = true /\
   norm_index (Z.of_nat (length (offs (getseq st 2)))) (-1) = Ok 2 /\
   is_cell st 0 0 (sbuf (getseq st 2)) (cell st 2 2) = true /\
   C (fst (step st (OSetInt 2 (-1) 99))) 0 = [[99; 99]; [3]; [4; 5; 6]; [7]; [8; 9]]%Z /\
